@@ -515,6 +515,56 @@ def ob_size(names):
               verdict="finite-enumeration", nontrivial=False)
 
 
+def replay_ctx_truncate():
+    """truncate_error configured through a CryptContext (context-wide, per scheme, per category) reaches the hasher: one byte past
+    the limit is refused, the limit itself is hashed; without the option the hasher's own default applies"""
+    import warnings
+    from passlib import exc, registry
+    from passlib.context import CryptContext
+    warnings.simplefilter("ignore")
+    for name in registry.list_crypt_handlers():
+        try:
+            H = registry.get_crypt_handler(name)
+        except Exception:
+            continue
+        base = getattr(H, "wrapped", H)
+        size = getattr(base, "truncate_size", None)
+        if not size or "truncate_error" not in getattr(H, "setting_kwds", ()) or base.name == "argon2":
+            continue
+        rk = {}
+        if "rounds" in H.setting_kwds:
+            rk["%s__rounds" % name] = {"bsdi_crypt": 5}.get(base.name, max(getattr(base, "min_rounds", 1), 1))
+        ck = dict((k, "user") for k in getattr(H, "context_kwds", ()) if k in ("user", "realm"))
+        for label, opts in (("context-wide", {"truncate_error": True}), ("per scheme", {"%s__truncate_error" % name: True}),
+                            ("per category", {"admin__%s__truncate_error" % name: True})):
+            try:
+                ctx = CryptContext(schemes=[name], **dict(rk, **opts))
+            except Exception as e:
+                return "CryptContext([%s], %r) raises %r" % (name, opts, e)
+            cat = "admin" if label == "per category" else None
+            for ln, want in ((size, False), (size + 1, True)):
+                try:
+                    ctx.hash("a" * ln, category=cat, **ck)
+                    got = False
+                except exc.PasswordTruncateError:
+                    got = True
+                except Exception as e:
+                    return "CryptContext([%s], %s truncate_error).hash(%d bytes) raises %r" % (name, label, ln, e)
+                if got != want:
+                    return "CryptContext([%s], %s truncate_error=True).hash(%d bytes, limit %d): %s" % (
+                        name, label, ln, size, "refused" if got else "silently truncated")
+    return False
+
+
+def ob_ctx_truncate():
+    r = replay_ctx_truncate()
+    if r:
+        return violation("truncate_error through a context: %s" % r, "ctx-truncate-error",
+                         {"module": "harness.c05", "func": "replay_ctx_truncate", "args": {}})
+    return ok("truncate_error set context-wide / per scheme / per category reaches every truncating hasher (limit accepted, limit+1 "
+              "refused)", paths=1, verdict="finite-enumeration", nontrivial=False)
+
+
 def replay_size(names):
     r = ob_size(names)
     return r["status"] == "violation" and r["detail"]
@@ -577,6 +627,7 @@ def run(tier, seed, t0, only=None):
     names = [n for n in registry.list_crypt_handlers()]
     for i in range(0, len(names), 8):
         obs.append(Ob("size-limit#%d" % (i // 8), ob_size, {"names": names[i:i + 8]}, timeout=1200))
+    obs.append(Ob("ctx-truncate-error", ob_ctx_truncate, timeout=600))
     if only:
         obs = [o for o in obs if only in o.name]
     results = runner.run_obligations(obs)
